@@ -128,3 +128,65 @@ pub proof fn lemma_valn_zero(s: Seq<Word>, k: int, n: int)
 {
     if n > k { lemma_valn_zero(s, k, n - 1); }
 }
+
+pub proof fn lemma_val1(s: Seq<Word>)
+    requires s.len() == 1,
+    ensures val(s) == s[0] as int,
+{
+    assert(valn(s, 1) == valn(s, 0) + (s[0] as int) * pw(0));
+    assert(pw(0) == 1);
+}
+
+pub proof fn lemma_val2(s: Seq<Word>)
+    requires s.len() == 2,
+    ensures val(s) == s[0] as int + (s[1] as int) * B(),
+{
+    assert(valn(s, 2) == valn(s, 1) + (s[1] as int) * pw(1));
+    assert(valn(s, 1) == valn(s, 0) + (s[0] as int) * pw(0));
+    assert(pw(1) == B() * pw(0));
+    assert(pw(0) == 1);
+    assert(pw(1) == B());
+    assert((s[0] as int) * pw(0) == s[0] as int) by (nonlinear_arith) requires pw(0) == 1;
+    assert((s[1] as int) * pw(1) == (s[1] as int) * B()) by (nonlinear_arith) requires pw(1) == B();
+}
+
+/// carry propagation into the high part: hi' ± c_out·P == hi ± c_in  (c_out may be 0 when c_in is 0)
+pub proof fn lemma_hi_carry(hi1: int, hi0: int, cin: int, cout: int, p: int)
+    requires (cin == 0 && cout == 0 && hi1 == hi0) || (cin == 1 && hi1 + cout * p == hi0 + 1),
+    ensures B() * hi1 + cout * (B() * p) == B() * hi0 + cin * B(),
+{
+    lemma_hi_carry_p(hi1, hi0, cin, cout, p, B());
+}
+
+/// as lemma_hi_carry with an arbitrary weight q
+pub proof fn lemma_hi_carry_p(hi1: int, hi0: int, cin: int, cout: int, p: int, q: int)
+    requires (cin == 0 && cout == 0 && hi1 == hi0) || (cin == 1 && hi1 + cout * p == hi0 + 1),
+    ensures q * hi1 + cout * (q * p) == q * hi0 + cin * q,
+{
+    if cin == 0 {
+        assert(cout * (q * p) == 0) by (nonlinear_arith) requires cout == 0;
+        assert(cin * q == 0) by (nonlinear_arith) requires cin == 0;
+    } else {
+        assert(q * (hi1 + cout * p) == q * hi1 + cout * (q * p)) by (nonlinear_arith);
+        assert(q * (hi0 + 1) == q * hi0 + cin * q) by (nonlinear_arith) requires cin == 1;
+    }
+}
+
+/// low part updated with carry c at weight q, carry propagated into the high part:
+/// (lo1 + q·hi1) + cout·(q·p) == (lo0 + q·hi0) + x
+pub proof fn lemma_lo_hi(lo1: int, lo0: int, x: int, c: int, hi1: int, hi0: int, cout: int, q: int, p: int)
+    requires lo1 + c * q == lo0 + x,
+        (c == 0 && cout == 0 && hi1 == hi0) || (c == 1 && hi1 + cout * p == hi0 + 1),
+    ensures (lo1 + q * hi1) + cout * (q * p) == (lo0 + q * hi0) + x,
+{
+    lemma_hi_carry_p(hi1, hi0, c, cout, p, q);
+}
+
+/// subtraction dual: (lo1 + q·hi1) − cout·(q·p) == (lo0 + q·hi0) − x
+pub proof fn lemma_lo_hi_sub(lo1: int, lo0: int, x: int, c: int, hi1: int, hi0: int, cout: int, q: int, p: int)
+    requires lo1 - c * q == lo0 - x,
+        (c == 0 && cout == 0 && hi1 == hi0) || (c == 1 && hi1 - cout * p == hi0 - 1),
+    ensures (lo1 + q * hi1) - cout * (q * p) == (lo0 + q * hi0) - x,
+{
+    lemma_hi_carry_p(hi0, hi1, c, cout, p, q);
+}
